@@ -127,6 +127,14 @@ def structural():
         out.append((f"ret2{tn}", A.prog([], [A.func("f0", [("p0", t)], t, A.block([A.ret(B("+", x, one)), A.ret(x)]), True)])))
         out.append((f"ret3{tn}", A.prog([], [A.func("f0", [("p0", t)], t, A.block([A.if_(B(">", x, one), A.block([A.ret(one), A.ret(x)]), A.block([A.ret(x)])), A.ret(B("*", x, one))]), True)])))
         out.append((f"retloop{tn}", A.prog([], [A.func("f0", [("p0", t)], t, A.block([A.decl("i", INT, L(0)), A.while_(B("<", V("i"), L(3)), A.block([A.if_(B(">", x, one), A.block([A.ret(x)])), A.estmt(A.asg(V("i"), B("+", V("i"), L(1))))])), A.ret(one)]), True)])))
+    # the remainder operator on ints and uints (refused by the backend today; if it is ever translated it has to agree with the VM)
+    for t, tn in ((INT, "i"), (A.UINT, "u")):
+        out.append((f"mod{tn}", A.prog([], [A.func("f0", [("p0", t), ("p1", t)], t, A.block([A.ret(B("+", B("*", B("%", V("p0"), V("p1")), L(10)), B("/", V("p0"), V("p1"))))]), True)])))
+        out.append((f"modlit{tn}", A.prog([], [A.func("f0", [("p0", t)], t, A.block([A.ret(B("%", V("p0"), L(3)))]), True)])))
+    # mixed signed / unsigned comparisons and division with the unsigned operand on the left
+    for op in ("<", ">", "/", "=="):
+        out.append((f"mixu{op}", A.prog([], [A.func("f0", [("p0", A.UINT), ("p1", INT)], INT, A.block([A.ret(B("+", B(op, V("p0"), V("p1")), L(100)))]), True)])))
+        out.append((f"mixi{op}", A.prog([], [A.func("f0", [("p0", INT), ("p1", A.UINT)], INT, A.block([A.ret(B("+", B(op, V("p0"), V("p1")), L(100)))]), True)])))
     # one literal value used as an int and, converted, as a float in the same function (constants are shared per function)
     for c in (0, 2, 3, 7, 64):
         pf, pi = V("p0"), V("p1")
